@@ -363,7 +363,7 @@ class Ctx:
         cov = {
             "obligations": self.obligations,
             "discharged": self.discharged,
-            "checker_cmd": f"cd lean && lake build {" ".join(prop_modules(self.prop))} && lake env lean .lake/audit_{self.prop}.lean  (#print axioms of every theorem)",
+            "checker_cmd": "cd lean && lake build " + " ".join(prop_modules(self.prop)) + f" && lake env lean .lake/audit_{self.prop}.lean  (#print axioms of every theorem)",
             "trusted_base": TRUSTED_BASE,
             "theorems": self.theorems,
             "evaluations": self.evaluations,
